@@ -225,9 +225,155 @@ def targets(tier='quick'):
                 for kind in ('memo', 'attrs', 'alias'):
                     s, i, p = history(kind, cls, meth, attr)
                     T.append(Target('hist/%s[%s.%s,%s]' % (kind, cls, meth, attr), q, s, p, R, PROP, invoke=i, replay=rp))
+    T.append(MemoInventoryTarget())
     from . import c20a
     T += c20a.targets(tier)
     return T
 
 
 META = {'level': 'proof', 'explanation': '', 'trusted_base': [], 'clauses': []}
+
+
+# ---- memo inventory: every memoised function of the package is under a contract
+class MemoInventoryTarget:
+    """Finds every function of oqupy decorated with functools.lru_cache / cache (AST of every
+    module, on every run).  Functions with a history contract above are listed as such; for
+    every other one the frame obligation
+        memo/inputs-immutable[<qualname>]
+    must hold: each attribute of self that the memoised body reads (transitively through
+    methods of the same object) is private (underscore) and assigned only in __init__ of its
+    class hierarchy, and no property setter exists for it -- then (self, args) determines the
+    result and a stale entry is impossible.  A memoised function for which this cannot be
+    established is reported as undecided (never as proved, never as a violation)."""
+    name = 'memo/inventory'
+    qualname = 'functools.lru_cache users'
+    prop = PROP
+    HISTORY_CONTRACTS = {'bath_correlations.CustomSD._eta_function': 'hist/memo[CustomSD|PowerLawSD.eta_function|correlation_2d_integral, *]',
+                         'bath_correlations.CustomCorrelations._correlation_2d_integral': 'hist/memo[CustomCorrelations.correlation_2d_integral, *]'}
+
+    def replay(self, ob):
+        return {'func': 'history', 'inputs': {'obligation': ob['name']}}
+
+    def run(self, timeout_ms, tier):
+        import os
+        import time
+        from pyvc.modules import Repo, PKG, ClassRef, FuncRef, describe
+        from pyvc.interp import memo_decorated
+        t0 = time.time()
+        repo = Repo()
+        res = {'target': self.name, 'function': self.qualname, 'property': PROP, 'paths': 1, 'obligations': [], 'undecided': [], 'errors': [],
+               'flags': [], 'lib_pure': [], 'lib_used': ['functools.lru_cache (assumed contract: table keyed by the call arguments)'],
+               'functions_extra': []}
+        root = os.path.join(repo.root, PKG)
+        found = []
+        for dp, _, files in os.walk(root):
+            for fn in sorted(files):
+                if not fn.endswith('.py'):
+                    continue
+                short = os.path.relpath(os.path.join(dp, fn), root)[:-3].replace(os.sep, '.')
+                m = repo.module(short)
+                if m is None:
+                    continue
+                for nm, ent in m.names.items():
+                    if isinstance(ent, FuncRef) and memo_decorated(ent.node):
+                        found.append((ent.qualname, ent, None))
+                    if isinstance(ent, ClassRef):
+                        for mn, f in ent.own_members().items():
+                            if isinstance(f, FuncRef) and memo_decorated(f.node):
+                                found.append((f.qualname, f, ent))
+
+        def ob(name, ok, info):
+            res['obligations'].append({'name': name, 'backend': 'frame analysis (AST)', 'flags': [], 'info': info, 'model': info, 'pc_sat': 'sat',
+                                       'result': 'discharged' if ok else 'refuted', 'seconds': 0.0})
+        ob('memo/inventory-nonempty', len(found) > 0, {'memoised functions': [q for q, _, _ in found]})
+        for q, f, cls in found:
+            res['functions_extra'].append(describe(f))
+            if q in self.HISTORY_CONTRACTS:
+                ob('memo/under-history-contract[%s]' % q, True, {'contract': self.HISTORY_CONTRACTS[q]})
+                continue
+            if cls is None:
+                res['undecided'].append('memoised module-level function %s has no contract' % q)
+                continue
+            reads, why = self.read_set(cls, f)
+            bad = []
+            for a in sorted(reads):
+                if not a.startswith('_'):
+                    bad.append('%s is public' % a)
+                w = self.writers(cls, a)
+                if w:
+                    bad.append('%s is assigned outside __init__ (%s)' % (a, ', '.join(w)))
+            if why:
+                res['undecided'].append('memoised %s: %s' % (q, why))
+            elif bad:
+                res['undecided'].append('memoised %s reads state that can change without changing the key: %s' % (q, '; '.join(bad)))
+            else:
+                ob('memo/inputs-immutable[%s]' % q, True, {'reads': sorted(reads)})
+        res['seconds'] = round(time.time() - t0, 3)
+        return res
+
+    @staticmethod
+    def hierarchy(cls):
+        out, seen, work = [], set(), [cls]
+        while work:
+            c = work.pop(0)
+            if c.qualname in seen:
+                continue
+            seen.add(c.qualname)
+            out.append(c)
+            for b in c.node.bases:
+                if isinstance(b, ast.Name):
+                    r = c.module.lookup(b.id)
+                    from pyvc.modules import ClassRef
+                    if isinstance(r, ClassRef):
+                        work.append(r)
+        return out
+
+    def read_set(self, cls, f):
+        """attributes of self read by f, following self.method() calls inside the hierarchy"""
+        reads, seen, work = set(), set(), [f]
+        H = self.hierarchy(cls)
+        while work:
+            g = work.pop()
+            if g.qualname in seen:
+                continue
+            seen.add(g.qualname)
+            args = g.node.args.args
+            if not args:
+                return reads, 'no self parameter'
+            me = args[0].arg
+            for n in ast.walk(g.node):
+                if isinstance(n, ast.Attribute) and isinstance(n.value, ast.Name) and n.value.id == me:
+                    meth = None
+                    for c in H:
+                        meth = c.own_members().get(n.attr)
+                        if meth is not None:
+                            break
+                    if meth is not None and hasattr(meth, 'node') and isinstance(meth.node, (ast.FunctionDef, ast.Lambda)):
+                        work.append(meth)
+                    else:
+                        reads.add(n.attr)
+                elif isinstance(n, ast.Call) and isinstance(n.func, ast.Name) and n.func.id in ('getattr', 'vars') and n.args and \
+                        isinstance(n.args[0], ast.Name) and n.args[0].id == me:
+                    return reads, 'reflective access to self'
+        return reads, None
+
+    def writers(self, cls, attr):
+        out = []
+        for c in self.hierarchy(cls):
+            for st in c.node.body:
+                if isinstance(st, ast.FunctionDef):
+                    is_setter = any(isinstance(d, ast.Attribute) and d.attr == 'setter' for d in st.decorator_list)
+                    if st.name == '__init__':
+                        continue
+                    me = st.args.args[0].arg if st.args.args else None
+                    for n in ast.walk(st):
+                        tg = []
+                        if isinstance(n, ast.Assign):
+                            tg = n.targets
+                        elif isinstance(n, (ast.AugAssign, ast.AnnAssign)):
+                            tg = [n.target]
+                        for t in tg:
+                            for x in ast.walk(t):
+                                if isinstance(x, ast.Attribute) and isinstance(x.value, ast.Name) and x.value.id == me and x.attr == attr:
+                                    out.append('%s.%s%s' % (c.name, st.name, ' (setter)' if is_setter else ''))
+        return out
